@@ -378,30 +378,40 @@ func c08Prop(st *CaseStats, fam int) func(t *rapid.T) {
 		} else if closeEarly && interleave {
 			labels = append(labels, "dictionary-closed-while-others-in-use")
 		}
-		// Contains / PostingsList agree with the live set
+		// Contains / PostingsList agree with the live set; the caller keeps ONE term buffer and overwrites it
+		// for every probe, and (with a shared dictionary) asks one Dictionary object for several terms in a row
+		var termBuf []byte
 		for k := 0; k < 4; k++ {
 			field := rapid.SampledFrom(ProbeFields).Draw(t, "cField")
 			term := rapid.SampledFrom(append(append([]string{}, TermVocab...), "absent")).Draw(t, "cTerm")
 			if ks := sortedKeys(c.Exp.Post[field]); len(ks) > 0 && rapid.Bool().Draw(t, "cLive") {
 				term = rapid.SampledFrom(ks).Draw(t, "cLiveTerm")
+				if k > 0 && rapid.Bool().Draw(t, "cSameLen") {
+					// prefer a term as long as the previous one: the buffer keeps its length
+					for _, x := range ks {
+						if len(x) == len(termBuf) && x != string(termBuf) {
+							term = x
+							break
+						}
+					}
+				}
 			}
 			live := c.Exp.Post[field][term]
-			if len(live) == 0 {
-				if err := probeAbsent(c.Seg, field, term); err != nil {
-					t.Fatalf("case %s %s: %v", sc, c.Desc, err)
-				}
-				continue
-			}
+			termBuf = append(termBuf[:0], term...)
 			err := safely("Contains/PostingsList", func() error {
-				d, err := c.Seg.Dictionary(field)
-				if err != nil {
-					return err
+				d := dicts[field]
+				if d == nil || !sharedDict {
+					var err error
+					if d, err = c.Seg.Dictionary(field); err != nil {
+						return err
+					}
+					dicts[field] = d
 				}
-				ok, err := d.Contains([]byte(term))
-				if err != nil || !ok {
-					return fmt.Errorf("Contains(%q/%q) = %v, %v for a live term", field, term, ok, err)
+				ok, err := d.Contains(termBuf)
+				if err != nil || ok != (len(live) > 0) {
+					return fmt.Errorf("Contains(%q/%q) = %v, %v; the term has %d live documents", field, term, ok, err, len(live))
 				}
-				pl, err := d.PostingsList([]byte(term), nil, nil)
+				pl, err := d.PostingsList(termBuf, nil, nil)
 				if err != nil {
 					return err
 				}
@@ -418,7 +428,12 @@ func c08Prop(st *CaseStats, fam int) func(t *rapid.T) {
 				return nil
 			})
 			if err != nil {
-				t.Fatalf("case %s %s: %v", sc, c.Desc, err)
+				t.Fatalf("case %s %s (probe %d through a reused term buffer, sharedDict=%v): %v", sc, c.Desc, k, sharedDict, err)
+			}
+			if len(live) == 0 {
+				if err := probeAbsent(c.Seg, field, term); err != nil {
+					t.Fatalf("case %s %s: %v", sc, c.Desc, err)
+				}
 			}
 		}
 		sort.Strings(labels)
